@@ -1022,6 +1022,8 @@ fn spawn_worker(paths: &Paths, seed: u64, from: u64, to: u64, stride: u64, out: 
         .env("VERIF_DIR", &paths.verif)
         .env("VERIF_BUILD", &paths.build)
         .stdin(std::process::Stdio::null())
+        // pdl-compiler prints dbg!() dumps before some todo!() panics: noise, kept out of the check's output
+        .stderr(std::fs::File::create(out.with_extension("stderr")).map(std::process::Stdio::from).unwrap_or_else(|_| std::process::Stdio::null()))
         .spawn()
 }
 
